@@ -175,5 +175,63 @@ func allChecks() []*Check {
 			Bounds: "L-parse (real Parser.Parse, one inductive step from every state an accepted prefix can leave: fresh / after a root / after root+child (unit learnt) / after root+child+root, each with and without a leading heading): notation = indent char space|tab x unit 1..4 x bullet -,*,+ per row x # roots or not; row depth 0..3; names of 2 (quick) / 3 (thorough) arbitrary ASCII bytes, 2 bytes over all 256 values (thorough); headings #..### with/without the space; malformation classes no-bullet, empty text, indentation not a multiple of the unit, mixed tabs/spaces, whitespace-only; arbitrary rows of 3/4 bytes (result/err exclusive, text non-empty). End to end (real parser + real tree code, text output): forests of 3 (quick) / 4 (thorough) rows, canonical spelling vs every member of the notation family, with a blank row at any position (thorough), with the first byte of every name symbolic for 2 rows. CRLF and the final newline are the scanner's contract (trusted). Assumed: heading names have no leading/trailing blanks and no leading '#'. Tree-level insensitivity to blank rows: C01; the splitter (massive mode): C10.",
 			Assume: append([]string{"real std strings code executed on symbolic bytes (leaf intrinsics: bytealg.IndexByteString, CountString, MakeNoZero; 256-entry tables as ite chains)"}, commonAssume...),
 		},
+		{
+			ID:    "C06",
+			Files: files([]string{"gtree/common.go", "gtree/progtree.go"}, filesVFS, []string{"gtree/c06.go"}),
+			Quick: []Job{
+				gjf("C06.md.n3", "VerifC06", 3, "C06.nil", "C06.exact.count", "C06.exact.kind", "C06.untouched", "C06.inside", "C06.exists.err", "C06.exists.unchanged"),
+				gjf("C06.root.n3", "VerifC06Root", 3, "C06.root.nil", "C06.root.exact.count", "C06.root.exact.kind", "C06.root.untouched", "C06.root.exists.err", "C06.root.exists.unchanged"),
+				gjf("C06.fault.n3", "VerifC06Fault", 3, "C06.fault.reported/longname", "C06.fault.reported/targetisfile"),
+			},
+			Thorough: []Job{
+				gjf("C06.md.n4", "VerifC06", 4, "C06.nil", "C06.exact.count", "C06.exact.kind", "C06.untouched", "C06.inside", "C06.exists.err", "C06.exists.unchanged"),
+				gjf("C06.root.n4", "VerifC06Root", 4, "C06.root.nil", "C06.root.exact.count", "C06.root.exact.kind", "C06.root.untouched", "C06.root.exists.err", "C06.root.exists.unchanged"),
+				gjf("C06.fault.n4", "VerifC06Fault", 4, "C06.fault.reported/longname", "C06.fault.reported/targetisfile"),
+			},
+			Bounds: "forests of N rows with distinct root names / programs of N nodes (quick 3, thorough 4), names opaque single path elements, 0..2 opaque extensions (suffix tests decided by the solver, so whole-name and overlapping suffixes are included), target present / missing / holding one unrelated file or directory; one root pre-existing as file or directory; refusals: a node with an over-long name (ENAMETOOLONG on every operation touching it), the target being a regular file. Outside: other OS refusals, symlinks, permissions, massive mode (C10).",
+			Assume: append([]string{parseContract, pathContract, fsModel}, commonAssume...),
+		},
+		{
+			ID:    "C07",
+			Files: []string{"gtree/common.go", "gtree/vfs_native.go", "gtree/c07_sym.go", "gtree/c07_native.go", "gtree/c07.go"},
+			Quick: []Job{
+				gj("C07.2x2", "VerifC07", 22, "C07.inside", "C07.reject", "C07.nothing", "C07.accept", "C07.dryrun.nothing"),
+				gj("C07.2x3", "VerifC07", 23, "C07.inside", "C07.reject", "C07.nothing", "C07.accept", "C07.dryrun.nothing"),
+				gj("C07.LPath.2x2", "VerifLPath", 22, "LPath.join", "LPath.valid", "LPath.fjoin", "LPath.fjoin.trailing"),
+			},
+			Thorough: []Job{
+				gj("C07.3x2", "VerifC07", 32, "C07.inside", "C07.reject", "C07.nothing", "C07.accept", "C07.dryrun.nothing"),
+				gj("C07.2x4", "VerifC07", 24, "C07.inside", "C07.reject", "C07.nothing", "C07.accept", "C07.dryrun.nothing"),
+				gj("C07.LPath.3x3", "VerifLPath", 33, "LPath.join", "LPath.valid", "LPath.fjoin", "LPath.fjoin.trailing"),
+			},
+			Bounds: "byte level: trees of 2 nodes (chain) and 3 nodes (chain, root with two children), every name an arbitrary ASCII byte string (no NUL/newline) of length 1..2/3 (quick) and 1..2 for 3 nodes, 1..4 for 2 nodes (thorough); entry points MkdirFromMarkdown, MkdirFromMarkdown+dry-run, MkdirFromRoot, MkdirFromRoot+dry-run, OutputFromMarkdown+dry-run (the CLI's route), each with and without extension '.x'; real path.Join/Clean, filepath.Join, fs.ValidPath, strings code on symbolic bytes. os.Stat answers 'does not exist'; os.MkdirAll/os.Create record their argument. L-path: Join of 2..3 single-element names is concatenation with '/'. Outside: non-ASCII names, symlinks, massive mode (validation is the same grower code; the pipeline is C10/C11).",
+			Assume: append([]string{parseContract, "os.Stat -> not exist; os.MkdirAll/Create record the path and succeed (byte-level recorder); lexical confinement only"}, commonAssume...),
+		},
+		{
+			ID:    "C08",
+			Files: files([]string{"gtree/common.go", "gtree/progtree.go"}, filesVFS, []string{"gtree/c06.go", "gtree/c08.go"}),
+			Quick: []Job{
+				gjf("C08.n3", "VerifC08", 3, "C08.readonly", "C08.iff/same", "C08.iff/differs", "C08.type", "C08.sound.missing", "C08.exact.missing", "C08.sound.extra", "C08.exact.extra", "C08.text"),
+				gjf("C08.mkdir.n3", "VerifC08Mkdir", 3, "C08.mkdir.made", "C08.mkdir.verifies", "C08.mkdir.readonly"),
+			},
+			Thorough: []Job{
+				gjf("C08.n3", "VerifC08", 3, "C08.readonly", "C08.iff/same", "C08.iff/differs", "C08.type", "C08.sound.missing", "C08.exact.missing", "C08.sound.extra", "C08.exact.extra", "C08.text"),
+				gjf("C08.mkdir.n4", "VerifC08Mkdir", 4, "C08.mkdir.made", "C08.mkdir.verifies", "C08.mkdir.readonly"),
+			},
+			Bounds: "forests of N=3 rows (distinct roots; From-Markdown forest or From-Root single tree), every downward-closed subset of node paths present, childless present nodes as directory or file (so a root may be a file), 0..2 extra directories at solver-chosen places beneath present directories, strict or not; the verdict, the two lists of the first differing root (set equality, through the error value and its public text) and read-only-ness. Mkdir-then-verify with 0..2 opaque extensions for N=3/4. Outside: N >= 4 for the state-space job (did not finish in 15 min), extra files (the verifier does not look at kinds), massive mode (C10).",
+			Assume: append([]string{parseContract, pathContract, fsModel, "fs.WalkDir modelled as: callback once per entry beneath the root, parents before children, root missing -> callback with fs.ErrNotExist, root a file -> callback with a non-ErrNotExist error"}, commonAssume...),
+		},
+		{
+			ID:    "C09",
+			Files: files([]string{"gtree/common.go", "gtree/progtree.go"}, filesVFS, []string{"gtree/c06.go", "gtree/c08.go", "gtree/c09.go"}),
+			Quick: []Job{
+				gjf("C09.n3", "VerifC09", 3, "C09.nil", "C09.pure", "C09.real.nil", "C09.report"),
+			},
+			Thorough: []Job{
+				gjf("C09.n4", "VerifC09", 4, "C09.nil", "C09.pure", "C09.real.nil", "C09.report"),
+			},
+			Bounds: "forests of N rows (quick 3, thorough 4), names opaque single path elements, 0..2 opaque extensions; routes OutputFromMarkdown+dry-run, MkdirFromMarkdown+dry-run, MkdirFromRoot+dry-run (single root); report compared with plain tree text + counts of what the real MkdirFromMarkdown then creates in the same file-system model. 'dry run rejects iff the real run rejects because of names' is decided at byte level by C07 (same five routes, every name byte symbolic). Outside: massive mode (C10).",
+			Assume: append([]string{parseContract, pathContract, fsModel, "fatih/color under NoColor; bufio.Writer as buffer + one Write at Flush"}, commonAssume...),
+		},
 	}
 }
